@@ -55,7 +55,35 @@ type c12Prog struct {
 	wantErr bool
 }
 
+// c12LoopFailures: a failure inside the body of a loop, for every kind of collection a loop can range over (the iteration is done by
+// reflection for everything that is not []any or map[string]any) and every kind of failure: the render fails and nothing is written
+func c12LoopFailures() []c12Prog {
+	var out []c12Prog
+	for _, coll := range []string{"items", "structs", "ptrs", "arr", "tmap", "smap", "floats", "strs", "amap", "nested"} {
+		for _, f := range []struct{ name, body string }{
+			{"filter", `{{ i | nosuchfn }}`}, {"missing-include", `<template include="nope.vuego"></template>`}, {"required", `<template include="c.vuego"></template>`},
+			{"failing-function", `{{ x | fail }}`}, {"bad-inner-for", `<u v-for="oops">x</u>`},
+		} {
+			src := `<h1>start</h1><ul><li v-for="i in ` + coll + `">` + f.body + `</li></ul><p>footer</p>`
+			files := map[string]string{"p.vuego": src, "c.vuego": `<template :required="must"><i>x</i></template>`}
+			str := src
+			if f.name == "required" || f.name == "missing-include" {
+				str = "" // the string entry points have no files to include from
+			}
+			out = append(out, c12Prog{"err-in-loop-over-" + coll + "-" + f.name, files, "p.vuego", str, true})
+		}
+		// the same loop succeeding: complete output
+		ok := `<h1>start</h1><ul><li v-for="i in ` + coll + `">{{ x }}</li></ul><p>footer</p>`
+		out = append(out, c12Prog{"ok-loop-over-" + coll, map[string]string{"p.vuego": ok}, "p.vuego", ok, false})
+	}
+	return out
+}
+
 func c12Progs() []c12Prog {
+	return append(c12BaseProgs(), c12LoopFailures()...)
+}
+
+func c12BaseProgs() []c12Prog {
 	ok := `<div class="a"><p v-for="i in items">{{ i }}</p><span v-if="t">yes</span></div><footer>end</footer>`
 	return []c12Prog{
 		{"ok-plain", map[string]string{"p.vuego": ok}, "p.vuego", ok, false},
@@ -87,8 +115,10 @@ func c12Call(p c12Prog, entry string, ctx context.Context, w *failWriter) (err e
 	for n, s := range p.files {
 		mfs[n] = &fstest.MapFile{Data: []byte(s), ModTime: time.Unix(1700000000, 0)}
 	}
-	data := map[string]any{"items": []any{1, 2, 3}, "t": true, "h": "<u>raw & html</u>", "x": "v"}
-	t := vuego.NewFS(mfs)
+	data := map[string]any{"items": []any{1, 2, 3}, "t": true, "h": "<u>raw & html</u>", "x": "v",
+		"structs": []S2{{1, "a"}, {2, "b"}}, "ptrs": []*S2{{X: 1}, {X: 2}}, "arr": [2]S2{{1, "a"}, {2, "b"}}, "tmap": map[string]S2{"k": {1, "a"}, "l": {2, "b"}}, "smap": map[string]string{"k": "v", "l": "w"},
+		"floats": []float64{1.5, 2.5}, "strs": []string{"a", "b"}, "amap": map[string]any{"k": 1, "l": 2}, "nested": [][]int{{1}, {2}}}
+	t := vuego.NewFS(mfs, vuego.WithFuncs(vuego.FuncMap{"fail": func(s string) (string, error) { return "", errors.New("boom") }}))
 	defer func() {
 		if e := recover(); e != nil {
 			err = fmt.Errorf("panic: %v", e)
